@@ -64,7 +64,12 @@ def _run_shard(jobs, ext_dir, env, timeout):
     """Feed jobs to one worker; restart behind a job that kills it. Returns one result per job."""
     results = []
     start = 0
+    crashes = 0
     while start < len(jobs):
+        if crashes >= 12:
+            # a tree this broken has been reported a dozen times by this shard already; do not pay a process start per job
+            results.extend({"skipped": True} for _ in jobs[start:])
+            break
         data = "".join(json.dumps(j) + "\n" for j in jobs[start:])
         try:
             r = subprocess.run([common.PY, WORKER, ext_dir, common.REPO], input=data, capture_output=True,
@@ -75,6 +80,7 @@ def _run_shard(jobs, ext_dir, env, timeout):
             results.extend(json.loads(x) for x in lines)
             results.append({"crash": "timeout", "stderr": ""})
             start += len(lines) + 1
+            crashes += 1
             continue
         lines = [x for x in r.stdout.split("\n") if x.startswith("{")]
         got = []
@@ -93,6 +99,7 @@ def _run_shard(jobs, ext_dir, env, timeout):
             tail = [ln for ln in r.stdout.split("\n") if ln and not ln.startswith("{")][:3]
             results.append({"crash": r.returncode, "stderr": "\n".join(tail + keep)[:3000]})
             start += 1
+            crashes += 1
         elif start < len(jobs):
             raise InfraError("worker stopped early without an error: " + (r.stderr or "")[-500:])
     return results
@@ -117,6 +124,18 @@ def run_jobs(jobs, ext_dir, env=None, timeout=1200, nproc=NPROC):
         for i, o in zip(idxs, out):
             res[i] = o
     return res
+
+
+def retry_without_decoder(jobs, results, ext_dir):
+    """a job that took the worker down is run again without the C decoder: if the encoder survives, its stream
+    can still be judged by the Lean Spec (the usual cause is exit(1) in mlw_decode.c on a bad stream)"""
+    bad = [i for i, r in enumerate(results) if "crash" in r][:40]
+    if bad:
+        again = run_jobs([dict(jobs[i], decode=False) for i in bad], ext_dir)
+        for i, r in zip(bad, again):
+            if "enc" in r:
+                results[i] = dict(r, dec=None, decoder_crash=results[i])
+    return results
 
 
 def lean_parallel(lines, nproc=NPROC):
@@ -292,6 +311,7 @@ def main():
     n_exh = len(seq_jobs)
     seq_jobs += long_sequences(rng, ck.thorough)
     seq_res = run_jobs([{"op": "encode", "seq": s} for _l, s in seq_jobs], ext)
+    seq_res = retry_without_decoder([{"op": "encode", "seq": s} for _l, s in seq_jobs], seq_res, ext)
     lines, idx = [], []
     for i, ((label, seq), r) in enumerate(zip(seq_jobs, seq_res)):
         if "enc" in r:
@@ -303,8 +323,11 @@ def main():
         ck.count("seq_" + (label if label == "exhaustive" else "random"))
         replay = {"entry": "mlw_codec.encode", "label": label, "sequence": seq if len(seq) <= 400 else seq[:400] + ["…%d more" % (len(seq) - 400)],
                   "replay": "mlw_codec.encode(sequence) -> ./check C07 (Lean: mlwseq <seq> <hex>)"}
+        if "skipped" in r:
+            ck.count("skipped_after_repeated_crashes")
+            continue
         if "crash" in r:
-            ck.violation(f"mlw_codec.encode/decode took the process down (rc={r['crash']}) on a valid sequence of length {len(seq)}: {r['stderr'][:200]}",
+            ck.violation(f"mlw_codec.encode took the process down (rc={r['crash']}) on a valid sequence of length {len(seq)}: {r['stderr'][:200]}",
                          dict(replay, crash=r))
             continue
         if "exc" in r:
@@ -315,12 +338,16 @@ def main():
         nontrivial.add(("seq", r["enc"]))
         if not v.startswith("ok "):
             spec_rejections += 1
-            ck.violation(f"Lean Spec rejects the stream mlw_codec.encode returned for a sequence of length {len(seq)} ({label}): {v[:160]}",
+            extra_note = "" if r.get("dec", 0) is not None else " (and mlw_decode.c takes the process down on it: %s)" % r["decoder_crash"]["stderr"][:80]
+            ck.violation(f"Lean Spec rejects the stream mlw_codec.encode returned for a sequence of length {len(seq)} ({label}): {v[:160]}{extra_note}",
                          dict(replay, stream_hex=r["enc"][:4096], spec_verdict=v[:400]))
         else:
             extra = int(v.split("extra=")[1].split()[0])
             ck.count("extra_zeros_%s" % ("0" if extra == 0 else "gt0"))
-            if r["dec"] != seq + [0] * extra:
+            if r["dec"] is None:
+                decoder_disagreements.append((len(seq), {"entry": "mlw_codec.decode", "sequence": seq[:400], "stream_hex": r["enc"][:4096],
+                                                         "c_decoder": r["decoder_crash"], "lean_verdict": v[:200]}))
+            elif r["dec"] != seq + [0] * extra:
                 decoder_disagreements.append((len(seq), {"entry": "mlw_codec.decode", "sequence": seq[:400], "stream_hex": r["enc"][:4096],
                                                          "c_decoder_first": r["dec"][:50], "lean_verdict": v[:200]}))
         if i in (0, n_exh + 5):
@@ -398,7 +425,7 @@ def main():
             continue
         add_volume(acc, rng.choice([8, 16]), rng.choice([1, 2, 0]), kind, rng.choice(dilations), rng.choice(entries),
                    shape=(od, kh, kw, idp), mode=4, dtype=rng.choice(["int16", "int16", "int8", "uint8"]))
-    vol_res = run_jobs(vol_jobs, ext)
+    vol_res = retry_without_decoder(vol_jobs, run_jobs(vol_jobs, ext), ext)
     lines, idx = [], []
     for i, (job, r) in enumerate(zip(vol_jobs, vol_res)):
         if "enc" in r:
@@ -415,6 +442,9 @@ def main():
         replay["params_order"] = "ifm_ublock_depth, ofm_ublock_depth, ofm_depth, kh, kw, ifm_depth, ofm_block_depth, is_depthwise, is_partkernel, ifm_bitdepth, decomp_h, decomp_w"
         replay["weights_ohwi_row_major"] = job["w"] if len(job["w"]) <= 600 else job["w"][:600] + ["…"]
         what = f"{job['entry']} acc={meta[0]} ifm_bits={meta[1]} ofm_block_depth={meta[2]} {meta[3]} dilation={meta[4]} shape={job['shape']}"
+        if "skipped" in r:
+            ck.count("skipped_after_repeated_crashes")
+            continue
         if "crash" in r:
             ck.violation(f"encoder took the process down (rc={r['crash']}): {what}: {r['stderr'][:200]}", dict(replay, crash=r))
             continue
@@ -433,15 +463,15 @@ def main():
             ck.count("extra_zeros_%s" % ("0" if extra == 0 else "gt0"))
             if r["n"] is not None and r["n"] != ndec - extra:
                 ck.violation(f"padded length returned by {job['entry']} ({r['n']}) differs from the traversal length {ndec - extra}: {what}", replay)
-            if len(r["dec"]) != ndec:
-                decoder_disagreements.append((len(job["w"]), dict(replay, c_decoder_len=len(r["dec"]), lean_verdict=v[:200])))
+            if r["dec"] is None or len(r["dec"]) != ndec:
+                decoder_disagreements.append((len(job["w"]), dict(replay, c_decoder_len=(len(r["dec"]) if r["dec"] is not None else r["decoder_crash"]), lean_verdict=v[:200])))
         if i in (1, n_tuples + 1):
             ck.sample({"volume": what, "stream_hex": r.get("enc", "")[:96], "lean": v[:160]})
     ck.count("config_tuples", n_tuples)
 
     # the C decoder against the Lean decoder on every stream of this run (weights compared, not only counts)
     dec_lines, dec_ref = [], []
-    sample_streams = [(r["enc"], r["dec"]) for r in vol_res + seq_res[n_exh:] if "enc" in r and "dec" in r and r["enc"]]
+    sample_streams = [(r["enc"], r["dec"]) for r in vol_res + seq_res[n_exh:] if "enc" in r and r.get("dec") is not None and r["enc"]]
     rng.shuffle(sample_streams)
     for enc, dec in sample_streams[:(300 if not ck.thorough else 3000)]:
         dec_lines.append("mlwdec " + enc)
@@ -509,6 +539,8 @@ def main():
         for job, r in zip(san_jobs, san_res):
             evaluations += 1
             ck.count("sanitizer_jobs")
+            if "skipped" in r:
+                ck.count("skipped_after_repeated_crashes")
             if "crash" in r:
                 san_reports += 1
                 small = {k: (v if not isinstance(v, list) or len(v) <= 800 else v[:800] + ["…"]) for k, v in job.items()}
